@@ -19,7 +19,7 @@ run_demo() {
   local rc=0
   for f in "${DEMOS[@]}"; do
     d=$(dirname "$f"); names=$(grep -ohE '^func (Test[A-Za-z0-9_]+)' "$f" | awk '{print $2}' | paste -sd'|')
-    (cd "$d" && go test -vet=off -count=1 -run "^($names)\$" . >/tmp/demo-$ID$SUF.log 2>&1) || rc=1
+    (cd "$d" && go test ${DEMO_FLAGS:-} -vet=off -count=1 -run "^($names)\$" . >/tmp/demo-$ID$SUF.log 2>&1) || rc=1
   done
   return $rc
 }
